@@ -716,12 +716,24 @@ impl<C: Config, Q: Query> Snapshot<C, Q> {
                         C::BuildHasher::default(),
                     );
 
+                    // A query that is published with its cycle default did
+                    // not derive that value from what it observed: keeping
+                    // the observations would let a later repair verify it as
+                    // clean whenever the observed fingerprints are unchanged,
+                    // even though the cycle it was on no longer exists. Its
+                    // dependencies are therefore stored as requested but not
+                    // observed, which makes the next repair that finds one
+                    // of them dirty execute the query again.
+                    let in_scc = lock_guard.this_computing.is_in_scc();
+
                     lock_guard
                         .this_computing
                         .callee_info
                         .callee_queries
                         .iter_sync(|k, v| {
-                            if let Some(obs) = v {
+                            if let Some(obs) = v
+                                && !in_scc
+                            {
                                 hash_map.insert(*k, *obs);
                             }
 
